@@ -262,6 +262,34 @@ pub fn dispatch(op: &str, a: &[&str]) -> Option<Ans> {
             }
             (ok(&out), ok(&s))
         }
+        // the public constants the Lean models depend on, read from the crate as built
+        "constants" => {
+            use dryoc::constants::*;
+            let v: Vec<(&str, u128)> = vec![
+                ("SECRETBOX_MACBYTES", CRYPTO_SECRETBOX_MACBYTES as u128), ("SECRETBOX_KEYBYTES", CRYPTO_SECRETBOX_KEYBYTES as u128),
+                ("SECRETBOX_NONCEBYTES", CRYPTO_SECRETBOX_NONCEBYTES as u128), ("BOX_MACBYTES", CRYPTO_BOX_MACBYTES as u128),
+                ("BOX_SEALBYTES", CRYPTO_BOX_SEALBYTES as u128), ("BOX_PUBLICKEYBYTES", CRYPTO_BOX_PUBLICKEYBYTES as u128),
+                ("SECRETSTREAM_ABYTES", CRYPTO_SECRETSTREAM_XCHACHA20POLY1305_ABYTES as u128),
+                ("SECRETSTREAM_HEADERBYTES", CRYPTO_SECRETSTREAM_XCHACHA20POLY1305_HEADERBYTES as u128),
+                ("SECRETSTREAM_TAG_MESSAGE", CRYPTO_SECRETSTREAM_XCHACHA20POLY1305_TAG_MESSAGE as u128),
+                ("SECRETSTREAM_TAG_PUSH", CRYPTO_SECRETSTREAM_XCHACHA20POLY1305_TAG_PUSH as u128),
+                ("SECRETSTREAM_TAG_REKEY", CRYPTO_SECRETSTREAM_XCHACHA20POLY1305_TAG_REKEY as u128),
+                ("SECRETSTREAM_COUNTERBYTES", CRYPTO_SECRETSTREAM_XCHACHA20POLY1305_COUNTERBYTES as u128),
+                ("SECRETSTREAM_INONCEBYTES", CRYPTO_SECRETSTREAM_XCHACHA20POLY1305_INONCEBYTES as u128),
+                ("KDF_BYTES_MIN", CRYPTO_KDF_BLAKE2B_BYTES_MIN as u128), ("KDF_BYTES_MAX", CRYPTO_KDF_BLAKE2B_BYTES_MAX as u128),
+                ("KDF_CONTEXTBYTES", CRYPTO_KDF_CONTEXTBYTES as u128), ("KDF_KEYBYTES", CRYPTO_KDF_KEYBYTES as u128),
+                ("GENERICHASH_BYTES_MIN", CRYPTO_GENERICHASH_BYTES_MIN as u128), ("GENERICHASH_BYTES_MAX", CRYPTO_GENERICHASH_BYTES_MAX as u128),
+                ("GENERICHASH_KEYBYTES_MIN", CRYPTO_GENERICHASH_KEYBYTES_MIN as u128), ("GENERICHASH_KEYBYTES_MAX", CRYPTO_GENERICHASH_KEYBYTES_MAX as u128),
+                ("PWHASH_SALTBYTES", CRYPTO_PWHASH_SALTBYTES as u128), ("PWHASH_OPSLIMIT_MIN", CRYPTO_PWHASH_OPSLIMIT_MIN as u128),
+                ("PWHASH_OPSLIMIT_MAX", CRYPTO_PWHASH_OPSLIMIT_MAX as u128), ("PWHASH_MEMLIMIT_MIN", CRYPTO_PWHASH_MEMLIMIT_MIN as u128),
+                ("PWHASH_MEMLIMIT_MAX", CRYPTO_PWHASH_MEMLIMIT_MAX as u128), ("PWHASH_BYTES_MIN", CRYPTO_PWHASH_BYTES_MIN as u128),
+                ("SIGN_BYTES", CRYPTO_SIGN_BYTES as u128), ("SIGN_SEEDBYTES", CRYPTO_SIGN_SEEDBYTES as u128),
+                ("KX_SESSIONKEYBYTES", CRYPTO_KX_SESSIONKEYBYTES as u128), ("ONETIMEAUTH_BYTES", CRYPTO_ONETIMEAUTH_BYTES as u128),
+                ("AUTH_BYTES", CRYPTO_AUTH_BYTES as u128), ("SHORTHASH_BYTES", CRYPTO_SHORTHASH_BYTES as u128),
+                ("SHORTHASH_KEYBYTES", CRYPTO_SHORTHASH_KEYBYTES as u128), ("BOX_SEEDBYTES", CRYPTO_BOX_SEEDBYTES as u128),
+            ];
+            (format!("ok {}", v.iter().map(|(n, x)| format!("{}={}", n, x)).collect::<Vec<_>>().join(",")), "n/a".into())
+        }
         "increment" => {
             let mut v = b[0].clone();
             dryoc::utils::increment_bytes(&mut v);
